@@ -170,23 +170,25 @@ CHECKS = {
         'assumptions': TX_ASSUMPTIONS,
     },
     'C06': {
-        'pkgs': ['./zzverif/htx'],
+        'pkgs': ['./zzverif/htx', './zzverif/hante'],
         'harnesses': [
+            {'fn': A + 'H_C06_1_Admission', 'must_reach': ['admitted', 'refused']},
             {'fn': T + 'H_C06_2_ExactlyOneNonce', 'over': {'max-decisions': 1500, 'max-paths': 100000}, 'must_reach': ['committed', 'committed-create', 'committed-vm-error', 'discarded']},
         ],
         'level_text': 'Bounded symbolic execution of one Ethereum transaction through the real nonce machinery (DLIncrementSequenceDecorator in the ante branch, the restore in the EthereumTx message server, the re-increment in TransitionDb for calls and in the fork\'s EVM.create for creations, commit/discard by the runTx model): z3 decides that for every sender sequence in [0, 2^63) and every outcome (success, VM error, consensus error, panic) the sequence ends exactly one higher, and stays put when the transaction is rejected at admission.',
-        'level_note': 'Signature recovery, chain-id protection and the nonce-equality admission check (DLSigVerification / ValidateBasic decorators) are not yet encoded: only the exactly-one-increment half of C06 is decided here. ECDSA is an uninterpreted function in any case.',
+        'level_note': 'H_C06_1 runs the real admission decorators (extension options, validate-basic, EOA check, timeout, memo, signature verification with go-ethereum\'s real signer logic for chain id / replay protection, sequence increment) on a single Ethereum message with up to two of 20 deviations: admitted iff none. ECDSA recovery and the signature hash are uninterpreted (the registered signer / hash of the transaction); native replay signs real transactions. Cosmos-lane signature verification is SDK code (not encoded).',
         'bounds': TX_BOUNDS,
-        'outside': ['signature / chain id / declared-sender checks of the ante handler', 'Cosmos-lane sequence handling (SDK)', 'replays across blocks (follow from the admission check, not encoded)'],
+        'outside': ['secp256k1 / Keccak (uninterpreted)', 'Cosmos-lane signature and sequence handling (SDK)', 'more than two simultaneous deviations'],
         'assumptions': TX_ASSUMPTIONS,
     },
     'C07': {
         'pkgs': ['./zzverif/hante'],
         'harnesses': [
             {'fn': A + 'H_C07_1_CosmosLaneScreening', 'over': {'max-paths': 100000}, 'must_reach': ['accepted', 'rejected']},
+            {'fn': A + 'H_C06_1_Admission', 'must_reach': ['admitted', 'refused']},
         ],
-        'level_text': 'Bounded exhaustive symbolic execution of the real Cosmos-lane decorators (CLRejectEthereumMsgs, CLRejectAuthzMsgs with the default disabled list and depth cap, CLVestingMessagesAuthorization) over transaction shapes: a spine of up to 4 nesting levels, optional siblings (MsgSend, MsgExec{MsgSend}, top-level vesting message) before/after the spine element of each level, one special message of 6 kinds (x3 vesting kinds, x4 disabled urls) at the end of the spine; acceptance is compared with an independent policy predicate on every shape.',
-        'level_note': 'The dual-lane decorators in front (extension options, ValidateBasic, memo, timeout, fee and gas equality of a single Ethereum message) are not encoded yet; protobuf Any packing and sdk.MsgTypeURL are models (registry of cached values / table of registered names).',
+        'level_text': 'H_C06_1: the real EVM-lane admission decorators on a single Ethereum message with up to two of 20 deviations (memo, timeout, foreign / non-critical extension option, Cosmos signatures, signer infos, payer, granter, fee amount / denom / gas limit differing from the embedded transaction, ...): admitted iff none. H_C07_1: bounded exhaustive symbolic execution of the real Cosmos-lane decorators (CLRejectEthereumMsgs, CLRejectAuthzMsgs with the default disabled list and depth cap, CLVestingMessagesAuthorization) over transaction shapes: a spine of up to 4 nesting levels, optional siblings (MsgSend, MsgExec{MsgSend}, top-level vesting message) before/after the spine element of each level, one special message of 6 kinds (x3 vesting kinds, x4 disabled urls) at the end of the spine; acceptance is compared with an independent policy predicate on every shape.',
+        'level_note': 'The SDK decorators embedded in the dual-lane ones (the Cosmos side) are not executed; the SDK tx wrapper\'s ValidateBasic is reduced to its no-signatures answer; protobuf Any packing and sdk.MsgTypeURL are models (registry of cached values / table of registered names).',
         'bounds': ['nesting depth of the special message 1..4 (cap is 3)', '<= 2 siblings per level, sibling kinds {MsgSend, MsgExec{MsgSend}, (level 1) MsgCreateVestingAccount to a proven address}', '18,941 shapes'],
         'outside': ['the single-Ethereum-message acceptance conditions (signatures, payer, memo, timeout, extension options, fee equality)', 'messages routed outside the ante handler (gov, ICA)', 'wider / deeper trees'],
         'assumptions': COMMON_ASSUMPTIONS + ['authz.MsgExec.GetMessages / Grant.GetAuthorization return the packed messages (registry model of protobuf Any cached values); sdk.MsgTypeURL is a table of the registered names of the message types used'],
